@@ -488,7 +488,10 @@ class PageElement(object):
                 # This is the top-level object. It should have .known_xml set
                 # from tree creation. If not, take a guess--BS is usually
                 # used on HTML markup.
-                return getattr(element, "is_xml", False)
+                # (vars(), not getattr(): on a Tag, getattr(tag, "is_xml")
+                # is Tag.__getattr__, i.e. a search for a child tag
+                # named "is_xml", and never yields the default.)
+                return bool(vars(element).get("is_xml", False))
             element = element.parent
 
     nextSibling = _deprecated_alias("nextSibling", "next_sibling", "4.0.0")
